@@ -59,10 +59,27 @@ const (
 	opRunFailRank
 	opRunFailMissing
 	opRunChain
+	opRefillA
+	opRunOddFirst
+	opRunOddLast
 	nHistOps
 )
 
-var histOpNames = []string{"Run(A)", "Run(B)", "Run(fresh copy of A)", "RunFail(wrong rank)", "RunFail(missing input)", "Run(outputs of previous Run fed back)"}
+var histOpNames = []string{"Run(A)", "Run(B)", "Run(fresh copy of A)", "RunFail(wrong rank)", "RunFail(missing input)", "Run(outputs of previous Run fed back)",
+	"caller overwrites the contents of A in place (A <-> B values)", "Run(A with its first tensor one longer on the last axis; outcome not judged)", "Run(A with its last tensor one longer on the last axis; outcome not judged)"}
+
+func sameShapes(a, b map[string]*ref.T) bool {
+	if len(a) != len(b) {
+		return false
+	}
+	for k, t := range a {
+		u, ok := b[k]
+		if !ok || u.DT != t.DT || !ref.ShapeEq(u.Shape, t.Shape) {
+			return false
+		}
+	}
+	return true
+}
 
 func (s *subject) applicable() []int {
 	ops := []int{opRunA, opRunB, opRunFreshA}
@@ -73,6 +90,15 @@ func (s *subject) applicable() []int {
 	}
 	if len(s.Chain) > 0 {
 		ops = append(ops, opRunChain)
+	}
+	if len(s.FeedA) > 0 {
+		if sameShapes(s.FeedA, s.FeedB) {
+			ops = append(ops, opRefillA)
+		}
+		ops = append(ops, opRunOddFirst)
+		if len(s.FeedA) > 1 {
+			ops = append(ops, opRunOddLast)
+		}
 	}
 	return ops
 }
@@ -165,15 +191,66 @@ func (s *subject) runHistory(seq []int) (v *hx.Violation, states map[uint64]bool
 	var lastOuts, lastFeed gonnx.Tensors
 	var lastExp, lastEFeed, curEFeed map[string]*ref.T
 	firstBits := map[string][]*ref.T{}
+	aHolds := "A" // which value set the caller's A tensor objects currently carry
 	for step, op := range seq {
 		transitions++
 		var feed gonnx.Tensors
 		var exp map[string]*ref.T
-		wantErr := false
+		wantErr, unjudged := false, false
 		label := ""
 		switch op {
+		case opRefillA:
+			src := s.FeedB
+			if aHolds == "B" {
+				src = s.FeedA
+			}
+			for k, t := range TA {
+				if !hx.RefillG(t, src[k]) {
+					hx.HarnessError("cannot refill caller tensor %s of %s in place", k, s.Name)
+				}
+			}
+			if aHolds == "A" {
+				aHolds = "B"
+			} else {
+				aHolds = "A"
+			}
+			if lastFeed != nil {
+				// the previous successful Run's data tensors that are A objects now carry the new values
+				ne := map[string]*ref.T{}
+				for k, v := range lastEFeed {
+					ne[k] = v
+					if lastFeed[k] == TA[k] {
+						ne[k] = src[k]
+					}
+				}
+				lastEFeed = ne
+			}
+			base, d0 = snapAll() // the caller changed its own tensors: new baseline for them
+			states[d0] = true
+			continue
+		case opRunOddFirst, opRunOddLast:
+			ks := sortedKeys(TA)
+			pick := ks[0]
+			if op == opRunOddLast {
+				pick = ks[len(ks)-1]
+			}
+			feed = gonnx.Tensors{}
+			for _, k := range ks {
+				feed[k] = TA[k]
+			}
+			sh := append([]int{}, s.FeedA[pick].Shape...)
+			if len(sh) == 0 {
+				sh = []int{2}
+			} else {
+				sh[len(sh)-1]++
+			}
+			feed[pick] = hx.ToG(perturb(&ref.T{DT: s.FeedA[pick].DT, Shape: sh, V: make([]uint64, ref.NElem(sh))}, 53))
+			unjudged = true
 		case opRunA:
 			feed, exp, label, curEFeed = TA, s.expA, "A", s.FeedA
+			if aHolds == "B" {
+				exp, label, curEFeed = s.expB, "B", s.FeedB
+			}
 		case opRunB:
 			feed, exp, label, curEFeed = TB, s.expB, "B", s.FeedB
 		case opRunFreshA:
@@ -222,9 +299,21 @@ func (s *subject) runHistory(seq []int) (v *hx.Violation, states map[uint64]bool
 			}
 			curEFeed = efeed
 		}
-		outs, rerr := m.Run(feed)
+		var outs gonnx.Tensors
+		var rerr error
+		if unjudged {
+			// whether this call succeeds (the operator copes with the other extent) or fails somewhere inside an
+			// operator is not judged; what it may have left behind is (snapshots below, later calls)
+			func() {
+				defer func() { recover() }()
+				m.Run(feed)
+			}()
+		} else {
+			outs, rerr = m.Run(feed)
+		}
 		where := fmt.Sprintf("step %d (%s) of %v", step, histOpNames[op], seqNames(seq))
-		if wantErr {
+		if unjudged {
+		} else if wantErr {
 			if rerr == nil {
 				return mk("not-refused", where+": failing call succeeded"), states, transitions
 			}
@@ -342,6 +431,7 @@ func historySubjects(all bool) []*subject {
 		for _, mask := range masks {
 			oc := rc.opCase()
 			oc.Route = "model"
+			oc.Dyn = true // symbolic dims: a tensor of another extent reaches the operator instead of being stopped by the signature check
 			oc.Init = make([]bool, len(rc.Inputs))
 			for k, p := range pos {
 				if mask&(1<<k) != 0 {
@@ -400,14 +490,14 @@ func historySubjects(all bool) []*subject {
 
 func checkC02(c *hx.Checker) {
 	thorough := c.Tier == "thorough"
-	depth := 3
+	depth := 4
 	if thorough {
 		depth = 5
 	}
 	c.Rule = fmt.Sprintf("subjects: (i) every registered operator as a single-node model under every role assignment of its tensor inputs (caller input / initializer; for operators with > 3 tensor inputs: none, all, each single one, all-but-one as initializer), (ii) compositions ConstantOfShape->GRU.initial_h and Constant->Conv.bias->ArgMax, (iii) sample models mlp, scaler, gru (thorough: + ndm). "+
-		"history alphabet on ONE loaded Model with persistent caller tensor objects A and B (B = other values; other batch size for the sample models): Run(A), Run(B), Run(fresh copy of A), RunFail(wrong rank), RunFail(missing input), Run(state outputs of the previous Run fed back as the very same tensor objects). "+
+		"history alphabet on ONE loaded Model with persistent caller tensor objects A and B (B = other values; other batch size for the sample models): Run(A), Run(B), Run(fresh copy of A), RunFail(wrong rank), RunFail(missing input), Run(state outputs of the previous Run fed back as the very same tensor objects), the caller overwriting the contents of the A tensor objects in place (A then carries B's values and vice versa), Run with the first / last caller tensor one element longer on its last axis (single-node models declare symbolic dims, so the call reaches the operator and typically fails inside it; its outcome is not judged). "+
 		"ALL sequences of depth <= %d are executed, each on a freshly loaded model. After every operation: outputs equal the reference evaluation of the model for these inputs AND are bit-identical to the first Run on the same values in this history; deep snapshots (shape, strides, dtype, flags, every element bit) of A, B and of every weight tensor plus the marshalled model proto equal their load-time value. "+
-		"states = distinct (weights + proto + caller tensors) digests observed (1 per subject when the property holds), transitions = operations executed; non-trivial = histories with >= 2 operations", depth)
+		"states = distinct (weights + proto + caller tensors) digests observed (1 per subject when the property holds, 2 with the caller's own in-place refill), transitions = operations executed; non-trivial = histories with >= 2 operations", depth)
 	c.Assumptions = []string{"oracle for output values: reference interpreter over the same model bytes (refmodel.go), so state leaking through package-level variables cannot contaminate the expectation",
 		"digest-based pruning is NOT used: a defect may keep its state where the digest cannot see it"}
 	subs := historySubjects(thorough)
@@ -459,8 +549,12 @@ func checkC02(c *hx.Checker) {
 				cls := "plain"
 				for _, o := range j.seq {
 					switch o {
-					case opRunFailRank, opRunFailMissing:
+					case opRunFailRank, opRunFailMissing, opRunOddFirst, opRunOddLast:
 						cls = "with-failing-calls"
+					case opRefillA:
+						if cls == "plain" {
+							cls = "with-refilled-caller-tensors"
+						}
 					case opRunChain:
 						cls = "with-fed-back-state"
 					}
